@@ -861,7 +861,12 @@ pub fn run_pass(ctx: &Ctx, sc: &Scenario, inject: bool) -> PassResult {
         let cfg = match cfg {
             Some(c) => c,
             None => {
-                viol!("O2-params-file", format!("exit 0 but the configuration cannot be established (flags omitted and the saved parameter file unusable){o5}"));
+                let no_range = flags.start.is_none() && matches!(&p_after, Some(Ok(p)) if p.date_range.is_none());
+                if no_range {
+                    viol!("O2-params-file", format!("the dates were defaulted to 'today' but the saved parameter file records no date range: feeding it back on another day cannot reproduce this run{o5}"));
+                } else {
+                    viol!("O2-params-file", format!("exit 0 but the configuration cannot be established (flags omitted and the saved parameter file unusable){o5}"));
+                }
                 res.steps.push(rec);
                 continue;
             }
